@@ -125,6 +125,8 @@ def h_reno(cfg):
                 snd.put(ack)
                 post = reno_rules(pre, 'dup')
                 compare('dup', post, snapshot(snd), (ei, ev))
+                if not snd.last_ack < snd.next_seq:
+                    cover('dup-with-nothing-outstanding')
                 if post['dupack'] == 3 and snd.last_ack < snd.next_seq:
                     re = [i for i, _, k in tap.log[nlog:]]
                     check('c17.fast-retransmit', re == [snd.last_ack], re)
@@ -260,6 +262,11 @@ def jobs(tier, seed):
             js.append({'harness': 'reno', 'weight': 3 ** len(h),
                        'cfg': {'events': h, 'flow_mss': 3, 'w0max': 2, 'dupack0': d0, 'max_timeouts': 1 if h else 2,
                                'maxadv': 2}, 'opts': {'max_paths': 4000 if tier == 'quick' else 20000}})
+    # duplicates arriving when everything sent has been acknowledged (nothing to retransmit; the window rules still apply)
+    for h, fm in ((['new', 'dup', 'dup', 'dup'], 1), (['new', 'dup', 'dup', 'dup', 'dup'], 2), (['new', 'new', 'dup', 'dup', 'dup'], 2)):
+        js.append({'harness': 'reno', 'weight': 3 ** len(h),
+                   'cfg': {'events': h, 'flow_mss': fm, 'w0max': 2, 'dupack0': 0, 'max_timeouts': 1, 'maxadv': 2},
+                   'opts': {'max_paths': 4000 if tier == 'quick' else 20000}})
     js.append({'harness': 'reno', 'weight': 200,
                'cfg': {'events': [], 'flow_mss': 3, 'w0max': 4, 'dupack0': 0, 'max_timeouts': 2, 'maxadv': 2, 'appl': True},
                'opts': {'max_paths': 6000 if tier == 'quick' else 30000}})
@@ -281,12 +288,14 @@ META = {
     'rule': 'one case = one feasible path of (initial window, arbitrary cwnd/ssthresh/rttvar/rtt estimate, event history)',
     'required_labels': ['c17.send-guard', 'c17.new-cwnd', 'c17.new-rto', 'c17.dup-cwnd', 'c17.dup-ssthresh',
                         'c17.timeout-cwnd', 'c17.timeout-rto', 'c17.cubic-slow-start', 'c17.cubic-ca-step'],
-    'required_covers': ['nontrivial', 'new-ack', 'deflate', 'fast-retransmit', 'timeout', 'new-segment', 'cubic-ca'],
+    'required_covers': ['nontrivial', 'new-ack', 'deflate', 'fast-retransmit', 'timeout', 'new-segment', 'cubic-ca',
+                        'dup-with-nothing-outstanding'],
     'bounds': {'quick': 'Reno: flow of 3 MSS, initial window 1-2 MSS, then cwnd, ssthresh >= MSS, rttvar >= 0, rtt estimate > 0 arbitrary reals; '
                         'event histories of length <= 4 (new ACK advancing 1-2 segments with symbolic RTT sample, duplicate ACKs, timer expiries '
                         'at symbolic instants, at most 1 expiry per history (2 for the empty history), initial RTT estimate >= 1; CUBIC: defaults, 6 events new/dup chosen by the solver, concrete dt/RTT',
                'thorough': 'histories <= 9, flows of 6 MSS with windows <= 4 MSS, CUBIC 9 events'},
     'assumptions': ['ACK numbers never exceed next_seq and never decrease (the statement speaks of new and duplicate ACKs)',
+                    'an ACK repeating the last acknowledged byte counts as a duplicate also when nothing is outstanding (the statement makes no exception; only the retransmission is then not demanded)',
                     'MSS*MSS/cwnd is compared as the same rational term (division by the symbolic cwnd, cwnd >= MSS)'],
     'stubs': ['ACKs are injected by calling the sender\'s put() with crafted acknowledgement packets'],
     'outside': ['the numerical CUBIC window curve (cube root / cubic polynomial): only that a CA step is 0 or +MSS',
